@@ -1108,11 +1108,12 @@ package bpmn
 // Event delivery (C11)
 
 // An event handed to a process is forwarded to every consumer registered at that moment, once each, in registration
-// order; seen from a caller that only cares about its own bookkeeping these are interface calls and opaque events.
+// order, with the consumer list's lock released (a consumer may register another consumer while it is being called); seen from a caller that only cares about its own bookkeeping these are interface calls and opaque events.
 //@ func (*Process).ConsumeEvent
 //@   prop C11 C18
 //@   flag emits opaque+calls
 //@   flag nonblocking
+//@   flag unlockedcallbacks
 //@   ensures [every-registered-consumer-once] count(Call, code("event|IConsumer.ConsumeEvent")) == old(count(Call, code("event|IConsumer.ConsumeEvent"))) + old(len(p.eventConsumers))
 
 // A catch event consumes an event by queueing it for its own goroutine.  Delivery must not block, whatever the node's
